@@ -13,7 +13,8 @@ pub enum EOp {
     /// one batch with every payload shape
     Send,
     Flush,
-    /// create a stream with a marker name through the TCP handler (journalled)
+    /// one journalled command with a marker name through the TCP handler; the kinds (create stream, topic,
+    /// user, consumer group, token, rename stream) take turns
     Admin,
     /// graceful restart into encryption mode 0 (off), 1 (key 1), 2 (key 2)
     R(u8),
@@ -28,7 +29,7 @@ impl EOp {
             EOp::Send => "send".into(),
             EOp::Flush => "flush".into(),
             EOp::Damage => "damage-last-stored-payload".into(),
-            EOp::Admin => "mkStream".into(),
+            EOp::Admin => "journalled-command".into(),
             EOp::R(k) => format!("restart(enc={k})"),
         }
     }
@@ -347,10 +348,14 @@ fn run_one(scratch: &Scratch, tpl: &crate::plog::Template, hist: &[EOp], res: &m
                 }
             }
             EOp::Admin => {
-                let name = format!("VXMARKSTREAM{:02}", st.names.len());
-                match w.create_stream_tcp(&name) {
+                // the journalled command types take turns: every one of them must be written encrypted
+                let kind = st.names.len() % 6;
+                let name = format!("VXMARK{}{:02}", ["STREAM", "TOPIC", "USER", "GROUP", "TOKEN", "RENAME"][kind], st.names.len());
+                match w.journalled_command(kind, &name) {
                     Ok(()) => {
-                        st.names.push((st.cur, name));
+                        // user and token names are journalled in lower case
+                        let stored = if kind == 2 || kind == 4 { name.to_lowercase() } else { name };
+                        st.names.push((st.cur, stored));
                         st.journal_modes.push(st.cur);
                     }
                     Err(e) => {
